@@ -16,6 +16,7 @@ type Run struct {
 	Tier  string
 	Only  int
 	out   *Out
+	cur   *os.File
 }
 
 var runners = map[string]func(*Run){}
@@ -68,5 +69,27 @@ func (r *Run) each(fn func(idx int, rng *Rng)) {
 	}
 	for i := r.Shard; i < r.N; i += r.Of {
 		fn(i, NewRng(r.Seed, uint64(i)))
+	}
+}
+
+// noteCurrent records (and flushes) the call about to be made, so that bin/check can name the
+// input when the process is killed by a Go fatal error (stack overflow, out of memory).
+func (r *Run) noteCurrent(idx int, what string, input []byte) {
+	if r.cur == nil {
+		r.cur, _ = os.Create(r.out.f.Name() + ".current")
+	}
+	r.cur.Truncate(0)
+	r.cur.Seek(0, 0)
+	h := hx(input)
+	if len(h) > 400 {
+		h = h[:400] + fmt.Sprintf("...(%d bytes)", len(input))
+	}
+	fmt.Fprintf(r.cur, "%d\t%s\t%s\n", idx, what, h)
+	r.cur.Sync()
+}
+
+func (r *Run) clearCurrent() {
+	if r.cur != nil {
+		r.cur.Truncate(0)
 	}
 }
